@@ -33,6 +33,12 @@ def obs_space(kind, dim):
     if kind == "dict":
         # keys deliberately not in sorted order: the declared (insertion) order is what flatten_sample follows
         return Dict(OrderedDict(vel=Box(-jnp.ones(dim), jnp.ones(dim)), pos=Box(-2 * jnp.ones(2), jnp.ones(2)), contact=Discrete(3)))
+    if kind == "multibinary":
+        return MultiBinary((dim, 2)) if dim > 1 else MultiBinary(3)
+    if kind == "multidiscrete":
+        return MultiDiscrete(tuple(range(2, 3 + dim)))
+    if kind == "mixed":
+        return Tuple((MultiBinary(dim + 1), Dict(OrderedDict(z=MultiDiscrete((3, 2)), a=Box(-jnp.ones(dim), jnp.ones(dim))))))
     return Tuple((Discrete(4), Box(-jnp.ones((dim, 2)), jnp.ones((dim, 2)))))
 
 
@@ -175,7 +181,7 @@ PARTS = {"roundtrip": oracle_roundtrip, "mismatch": oracle_mismatch}
 @st.composite
 def specs(draw):
     cls = draw(st.sampled_from(["ac", "ac", "q", "sac"]))
-    obs_kind = draw(st.sampled_from(["box", "discrete", "dict", "tuple"]))
+    obs_kind = draw(st.sampled_from(["box", "discrete", "dict", "tuple", "multibinary", "multidiscrete", "mixed"]))
     if cls == "ac":
         act_kind = draw(st.sampled_from(["discrete", "box_scalar", "box_vec", "multibinary", "multidiscrete"]))
         arch = {
@@ -227,7 +233,7 @@ def mismatch_cases(draw):
 
 def run(ctx: Ctx):
     ctx.rule = (
-        "Generated (policy class in {MLPActorCritic, MLPQ, MLPSAC}) x (observation space in {Box, Discrete, Dict, Tuple}) x (action "
+        "Generated (policy class in {MLPActorCritic, MLPQ, MLPSAC}) x (observation space in {Box, Discrete, Dict, Tuple, MultiBinary, MultiDiscrete, nested mixes}) x (action "
         "space in {Discrete, Box scalar/vector, MultiBinary, MultiDiscrete}) x architecture arguments x perturbed weights x path "
         "spellings (with/without .eqx, nested not-yet-existing directories, spaces, paths already holding an older checkpoint of the same or another architecture; foreign dotted suffixes must at least fail "
         "loudly) in fresh temporary directories: serialize -> deserialize with the same arguments and another key => every array "
